@@ -1,9 +1,10 @@
 """C09 - parse result invariant under insignificant rewrites.
 
 Decided: CASE-TAINT (no raw-case string from Contentline.parts or from the
-caller is compared with cased constants), EOL-FOLD (regex membership +
-unfold-before-split ordering + blank-line skipping), BOM-BYTES (bytes entries
-decode through to_unicode / utf-8-sig).
+caller is compared with cased constants), CASE-MODEL (E7 parse loop on mixed
+case lines), EOL-FOLD (regex language facts, E5), PHYS-MODEL (E9: the logical
+lines are invariant under LF/CRLF, BOM, str/bytes, every fold placement with
+space or tab, blank lines).
 Not decided: equality of whole trees for all texts.
 """
 import ast
@@ -188,40 +189,7 @@ def run(ctx):
                and isinstance(n.func, ast.Attribute) and n.func.attr == "upper"]
         if not ups:
             raise AnalysisError("from_ical: neither raw comparisons nor .upper() found")
-    # BEGIN/END and component lookup go through upper()
-    ups = {}
-    for n in ast.walk(fi.node):
-        if isinstance(n, ast.Assign) and isinstance(n.value, ast.Call) \
-                and isinstance(n.value.func, ast.Attribute) \
-                and n.value.func.attr == "upper" \
-                and isinstance(n.value.func.value, ast.Name) \
-                and n.value.func.value.id in raw_strs \
-                and isinstance(n.targets[0], ast.Name):
-            ups[n.targets[0].id] = n.value.func.value.id
-    begin_end = []
-    for n in ast.walk(fi.node):
-        if isinstance(n, ast.Compare) and isinstance(n.ops[0], ast.Eq) \
-                and isinstance(n.comparators[0], ast.Constant) \
-                and n.comparators[0].value in ("BEGIN", "END"):
-            begin_end.append((n.comparators[0].value, n.left))
-    for kw, left in begin_end:
-        ctx.check(isinstance(left, ast.Name) and left.id in ups,
-                  "C09/CASE-TAINT", f"from_ical {kw} test folded",
-                  f"the {kw} test must compare the upper-cased name", fi.loc(left),
-                  detail=f"{dump(left)} == '{kw}'")
-    if len(begin_end) < 2:
-        raise AnalysisError("from_ical: BEGIN/END tests not found")
-    # component factory lookup with folded value
-    look = [c for c in ast.walk(fi.node) if isinstance(c, ast.Call)
-            and isinstance(c.func, ast.Attribute) and c.func.attr == "get"
-            and isinstance(c.func.value, ast.Name)
-            and c.func.value.id == "component_factory"]
-    ctx.check(len(look) == 1 and isinstance(look[0].args[0], ast.Name)
-              and look[0].args[0].id in ups, "C09/CASE-TAINT",
-              "from_ical component lookup folded",
-              "component class lookup must use the upper-cased BEGIN value",
-              fi.loc(), detail="component_factory.get(vals.upper(), Component)")
-
+    # (BEGIN/END tests and the component lookup: decided by C09/CASE-MODEL)
     # caller-supplied names in add/_encode
     for meth in ("add", "_encode", "decoded", "_decode"):
         f = comp.methods.get(meth)
@@ -252,87 +220,15 @@ def run(ctx):
     ctx.check(okk, "C09/EOL-FOLD", "NEWLINE only matches line breaks",
               "NEWLINE matches a string without LF: content would be split",
               None, witness=wit, detail="every match contains LF")
-    cls_from = m.own_method("parser.Contentlines.from_ical")
-    env = SymEnv(cls_from.node)
-    st_p = cls_from.params[1]
-    splits = [c for c in ast.walk(cls_from.node) if isinstance(c, ast.Call)
-              and isinstance(c.func, ast.Attribute) and c.func.attr == "split"
-              and isinstance(c.func.value, ast.Name) and c.func.value.id == "NEWLINE"]
-    if len(splits) != 1:
-        raise AnalysisError("Contentlines.from_ical: NEWLINE.split(...) not found")
-    arg = env.expand_at(splits[0].args[0])
-    unfold_first = (isinstance(arg, ast.Call) and isinstance(arg.func, ast.Attribute)
-                    and arg.func.attr == "sub" and isinstance(arg.func.value, ast.Name)
-                    and arg.func.value.id == "uFOLD" and len(arg.args) == 2
-                    and isinstance(arg.args[0], ast.Constant) and arg.args[0].value == "")
-    ctx.check(unfold_first, "C09/EOL-FOLD", "unfold precedes split",
-              f"lines are split on `{dump(arg)[:70]}`: folds must be removed "
-              f"(uFOLD.sub('', text)) before splitting into lines",
-              cls_from.loc(splits[0]), detail="NEWLINE.split(uFOLD.sub('', st))")
-    if unfold_first:
-        inner = arg.args[1]
-        dec = (isinstance(inner, ast.Call) and isinstance(inner.func, ast.Name)
-               and inner.func.id == "to_unicode" and is_param(inner.args[0], st_p)
-               and len(inner.args) == 1 and not inner.keywords)
-        ctx.check(dec, "C09/BOM-BYTES", "Contentlines.from_ical decodes first",
-                  "the input must pass through to_unicode(st) (utf-8-sig) before "
-                  "unfolding", cls_from.loc(), detail="to_unicode(st)")
-    # blank lines skipped
-    comp_gen = None
-    for n in ast.walk(cls_from.node):
-        if isinstance(n, (ast.GeneratorExp, ast.ListComp)) and \
-                any(s is splits[0] for g in n.generators for s in ast.walk(g.iter)):
-            comp_gen = n
-    skip = comp_gen is not None and any(
-        isinstance(i, ast.Name) and i.id == comp_gen.generators[0].target.id
-        for i in comp_gen.generators[0].ifs)
-    ctx.check(skip, "C09/EOL-FOLD", "blank lines skipped",
-              "empty physical lines (trailing blank lines) must be dropped when "
-              "splitting", cls_from.loc(), detail="... for line in split if line")
-    # (the parse loop's handling of the empty terminator line is part of the
-    #  parse model below: every explored sequence ends with it)
     _case_model(ctx)
-
-    # ---- BOM-BYTES ---------------------------------------------------------
-    tu = m.func("parser_tools.to_unicode")
-    a = tu.node.args
-    dflt = None
-    if a.defaults:
-        dflt = m.const(a.defaults[-1], tu.module)
-    ctx.check(dflt == "utf-8-sig", "C09/BOM-BYTES", "to_unicode default codec",
-              f"to_unicode decodes bytes with {dflt!r} by default; utf-8-sig is "
-              f"needed to drop a leading BOM", tu.loc(), detail="utf-8-sig")
-    fallback = [c for c in ast.walk(tu.node) if isinstance(c, ast.Call)
-                and isinstance(c.func, ast.Attribute) and c.func.attr == "decode"]
-    fb_ok = all((isinstance(c.args[0], ast.Name) and c.args[0].id == tu.params[1])
-                or (isinstance(c.args[0], ast.Constant) and c.args[0].value == "utf-8-sig")
-                for c in fallback if c.args)
-    ctx.check(bool(fallback) and fb_ok, "C09/BOM-BYTES", "to_unicode fallback codec",
-              "the replace-fallback decode must also use utf-8-sig", tu.loc(),
-              detail=f"{len(fallback)} decode calls")
-    # str passes through unchanged
-    ident = any(isinstance(s, ast.If) and "isinstance" in dump(s.test)
-                and "str" in dump(s.test)
-                and isinstance(s.body[0], ast.Return)
-                and isinstance(s.body[0].value, ast.Name)
-                and s.body[0].value.id == tu.params[0]
-                for s in ast.walk(tu.node))
-    ctx.check(ident, "C09/BOM-BYTES", "to_unicode identity on str",
-              "a str input must be returned unchanged (str and bytes inputs "
-              "then follow the same path)", tu.loc(), detail="return value")
-    clf = m.own_method("parser.Contentline.from_ical")
-    envc = SymEnv(clf.node)
-    rets = [n for n in walk_no_nested(clf.node) if isinstance(n, ast.Return)]
-    okc = False
-    for r in rets:
-        ex = envc.expand_at(r.value, r)
-        s = dump(ex)
-        okc = "to_unicode(" in s and "uFOLD.sub('', " in s
-    ctx.check(okc, "C09/BOM-BYTES", "Contentline.from_ical decodes and unfolds",
-              "Contentline.from_ical must decode with to_unicode and unfold",
-              clf.loc(), detail="cls(uFOLD.sub('', to_unicode(ical)))")
+    # ---- physical rewritings: line ends, BOM, str/bytes, fold placement, blank lines
+    from .. import strmodel
+    cls_from = m.own_method("parser.Contentlines.from_ical")
+    strmodel.report(ctx, "C09/PHYS-MODEL", strmodel.explore_physical,
+                    ["reader", "invariance", "unfold"], cls_from.loc(), 100,
+                    select=lambda law: law in ("reader", "invariance", "unfold"))
     # uFOLD denotes exactly the fold language; FOLD (bytes twin) agrees
     from .c06 import unfold_rule
     unfold_rule(ctx, "C09/EOL-FOLD")
-    ctx.floor("C09/EOL-FOLD", 9)
-    ctx.floor("C09/CASE-TAINT", 5)
+    ctx.floor("C09/EOL-FOLD", 8)
+    ctx.floor("C09/CASE-TAINT", 4)
